@@ -179,7 +179,11 @@ partial def parseCell : ATy → List String → Option (Cell × List String)
     | .bool, ["b", "1"] => some (.bool true, r)
     | .utf8, ["s", h] => (parseHexBody h).map fun x => (.str false x, r)
     | .largeUtf8, ["s", h] => (parseHexBody h).map fun x => (.str true x, r)
-    | .dict, ["s", h] => (parseHexBody h).map fun x => (.dict x, r)
+    | .dict, ["s", h] => (parseHexBody h).map fun x => (.dict [x] 0, r)
+    | .dict, ["e", i, hs] =>      -- e:<index>:<hex>,<hex>,… : the whole dictionary and the row's index
+      match i.toNat?, (hs.splitOn ",").mapM parseHexBody with
+      | some k, some es => some (.dict es k, r)
+      | _, _ => none
     | .binary, ["y", h] => (parseHexBody h).map fun x => (.bin .normal x, r)
     | .largeBinary, ["y", h] => (parseHexBody h).map fun x => (.bin .large x, r)
     | .fixed _, ["y", h] => (parseHexBody h).map fun x => (.bin .fixed x, r)
@@ -260,7 +264,7 @@ partial def showCell : Cell → String
   | .time us => "time:" ++ toString us
   | .dur us => "dur:" ++ toString us
   | .dec n => "dec:" ++ toString n
-  | .dict x => "dict:" ++ hexOfBStr x
+  | .dict es i => "dict:" ++ hexOfBStr (es.getD i [])
   | .list cs => "[" ++ showCells cs ++ "]"
   | .map kvs => "{" ++ showCKVs kvs ++ "}"
   | .struct fs => "(" ++ showCFields fs ++ ")"
